@@ -18,21 +18,49 @@ No Mathlib: linked into the native driver.
 import HedVerif.Model.Bids
 import HedVerif.Model.BidsV
 import HedVerif.Model.Closed
+import HedVerif.Model.ClosedRaw
 
 namespace HedVerif.Bids
 
 /-- `TabularInput(file=d, sidecar=merged or None)` as the input of the file layer -/
 abbrev Frames := PFile SJson → Option (Columns SJson) → Tabular.Cfg × List Tabular.Row
 
-/-- the string layer and the table presentation of `BidsV.Oracles`, closed with the C01 model -/
-def closedOracles (env : Validate.Env) (kB : Tabular.RIssue) (F : Frames) : Oracles where
-  sidecar := fun _ => Closed.sidecarOracle env
-  table := fun d sc => (Closed.closeCfg env kB (F d sc).1, (F d sc).2)
+mutual
+/-- the part of a JSON value the assembly looks at (`Assemble.J`): strings and objects, everything else `other` -/
+def toJ : SJson → Assemble.J
+  | .str s => .str s
+  | .obj kvs => .obj (toJs kvs)
+  | _ => .other
+def toJs : List (Str × SJson) → List (Str × Assemble.J)
+  | [] => []
+  | (k, v) :: r => (k, toJ v) :: toJs r
+end
 
-/-- `SidecarValidator.validate(sidecar.contents)` of one participating sidecar: the closed sidecar pipeline on the
-merge of its chain (plus one load issue per chain member that is not a JSON object) -/
+/-- the environment an events file is validated in: the definitions its merged sidecar declares come first in the
+dictionary, then the external ones (`TabularInput.validate` → `get_def_dict(schema, extra_def_dicts)`); no
+sidecar: the external dictionary alone -/
+def fileEnv (env : Validate.Env) (sc : Option (Columns SJson)) : Validate.Env := Raw.envD env (toJs (sc.getD []))
+
+/-- the string layer for one merged sidecar document: the C01 model whose dictionary is the document's own extracted
+definitions followed by the external ones, with the definition issues computed by the C09 model
+(`SidecarV.validateD`: `Sidecar.validate(schema, extra_def_dicts)`) -/
+def sidecarOracleFor (env : Validate.Env) (m : Columns SJson) : SidecarV.Oracle :=
+  let O := Closed.sidecarOracleD (Closed.envWith env (Closed.sidecarDict env .fixed (.obj m)))
+  match SidecarV.extractDefsDoc .fixed O (.obj m) with
+  | .ok (dd, dis) => SidecarV.withDefs O (dis ++ SidecarV.mergeIssues dd (env.defs.map (·.key)))
+  | .error _ => O
+
+/-- the string layer and the table presentation of `BidsV.Oracles`, closed with the C01 model; each sidecar and each
+file gets the environment of its own merged sidecar -/
+def closedOracles (env : Validate.Env) (kB : Tabular.RIssue) (F : Frames) : Oracles where
+  sidecar := sidecarOracleFor env
+  table := fun d sc => (Closed.closeCfg (fileEnv env sc) kB (F d sc).1, (F d sc).2)
+
+/-- `SidecarValidator.validate(sidecar.contents)` of one participating sidecar: the closed sidecar pipeline
+(`SidecarV.validateClosedD`: its own declared definitions included) on the merge of its chain, plus one load issue per
+chain member that is not a JSON object -/
 def sidecarClosed (env : Validate.Env) (g : Group SJson) (s : PFile SJson) : Except SidecarV.Exn (List SidecarV.Issue) :=
-  validateLoaded .fixed (Closed.sidecarOracle env) (List.replicate (loadIssueCount g s) wrongTop) (mergeImpl g s)
+  validateLoaded .fixed (sidecarOracleFor env (mergeImpl g s)) (List.replicate (loadIssueCount g s) wrongTop) (mergeImpl g s)
 
 /-- the sidecar a data file is validated with -/
 def sidecarOf (g : Group SJson) (d : PFile SJson) : Option (Columns SJson) :=
@@ -41,7 +69,7 @@ def sidecarOf (g : Group SJson) (d : PFile SJson) : Option (Columns SJson) :=
 /-- `TabularInput(file, sidecar=merged).validate(...)` of one participating events file -/
 def tableClosed (env : Validate.Env) (kB : Tabular.RIssue) (F : Frames) (g : Group SJson) (d : PFile SJson) :
     Except Tabular.PyExc (List Tabular.Issue) :=
-  Tabular.validateClosed env kB (F d (sidecarOf g d)).1 (F d (sidecarOf g d)).2
+  Tabular.validateClosed (fileEnv env (sidecarOf g d)) kB (F d (sidecarOf g d)).1 (F d (sidecarOf g d)).2
 
 /-- one file group: `validate_sidecars` then `validate_datafiles`, every issue labelled with its file -/
 def validateGroupClosed (env : Validate.Env) (kB : Tabular.RIssue) (F : Frames) (g : Group SJson) :
